@@ -63,12 +63,12 @@ CLAIMED = {
  "C20": ("Retry loop of both socket clients, the net/rpc + jsonrpc error conventions, the socket server methods' normalisation (handler error message never "
          "empty, nil byte-slice reply sent as empty), peers.NewPeer's UTF-8 normalisation and the JSON field mapping of Block / CommitResponse / transactions "
          "(base64 at digit level, nil vs empty, invalid UTF-8) modelled in Coq; proved: a success is the reply of the first attempt that went through, all "
-         "attempts failing is an error, at most three attempts / deliveries; a call the application handled in none of its attempts is an error whatever the "
+         "attempts failing is an error, at most three attempts / deliveries, successive calls are independent (the k-th reply depends on the k-th call only; the harness keeps every value a call returned or delivered and re-compares it after every later call); a call the application handled in none of its attempts is an error whatever the "
          "error message, a call it handled is a success with its reply also when that is a nil slice; the mapping is the identity on content (nil and empty "
          "kept apart) for every block whose peers come from NewPeer with arbitrary address / moniker strings. Three defects found by this check are fixed in "
          "/repo (ebb9c0a, faf0201, b2c4118); their inputs are permanent regression inputs. Tied to the code by real socket proxies in both directions through "
          "a fault-injecting message-aware relay next to the inmem proxy",
-         "22 theorems, no axioms; TCP, net/rpc, timeouts are runtime; a retried call is delivered again (noted, at-least-once); key / signature strings "
+         "24 theorems, no axioms; TCP, net/rpc, timeouts are runtime; a retried call is delivered again (noted, at-least-once); key / signature strings "
          "assumed encoder outputs; a Peer struct literal with a stray byte is still altered by JSON (control case)",
          "Coq theorems (induction over attempt lists, base64 round trip, ToValidUTF8 model) + model/implementation correspondence + content / order / failure oracles"),
  "C12": ("Decision rule of core.fastForward / Node.fastForward modelled in Coq (CheckBlock over the signature MAP with re-spelled keys, distinct known signers, "
